@@ -19,8 +19,34 @@ EXTENDS Integers, Sequences, FiniteSets, TLC
 PS1 == ">>> "
 PS2 == "... "
 
+(* ------------------------------- generated block items ---------------------------------------- *)
+(* Besides the fixed descriptors below, compound items are GENERATED: a header and a body of   *)
+(* one to three physical lines, each an assignment, a comment (indented or at column 0) or a   *)
+(* whitespace-only line (at the block's indentation, shallower, or a lone tab).  In a file     *)
+(* comment lines and whitespace-only lines are not statements and do not end a block, whatever *)
+(* their indentation; only the really empty line after the item terminates it interactively.   *)
+Hdrs == {"if", "for"}
+HdrLine(h) == IF h = "if" THEN "if True:" ELSE "for i in range(2):"
+HdrMult(h) == IF h = "if" THEN 1 ELSE 2
+BodyCodes == {"i", "w", "s", "c", "z", "t"}
+BodyLine(c) == CASE c = "i" -> "    n = n + 1"      \* a statement
+                 [] c = "w" -> "    "               \* whitespace only, at the block's indentation
+                 [] c = "s" -> "  "                 \* whitespace only, shallower than the block
+                 [] c = "t" -> "\t"                 \* a lone tab
+                 [] c = "c" -> "    # c"            \* a comment at the block's indentation
+                 [] c = "z" -> "# c"                \* a comment at column 0
+Bodies == {b \in UNION {[1..m -> BodyCodes] : m \in 1..3} : \E j \in DOMAIN b : b[j] = "i"}
+BlockSpecs == {[h |-> h, b |-> b] : h \in Hdrs, b \in Bodies}
+Cat(b) == IF Len(b) = 1 THEN b[1] ELSE IF Len(b) = 2 THEN b[1] \o b[2] ELSE b[1] \o b[2] \o b[3]
+BName(x) == "B" \o x.h \o ":" \o Cat(x.b)
+BlockKinds == {BName(x) : x \in BlockSpecs}
+BTable == [kd \in BlockKinds |-> CHOOSE x \in BlockSpecs : BName(x) = kd]
+BLines(x) == <<HdrLine(x.h)>> \o [j \in 1..Len(x.b) |-> BodyLine(x.b[j])] \o <<"">>
+BIncs(x) == HdrMult(x.h) * Cardinality({j \in DOMAIN x.b : x.b[j] = "i"})
+
 Lines(kd) ==
-  CASE kd = "init"    -> <<"n = 0">>
+  CASE kd \in BlockKinds -> BLines(BTable[kd])
+    [] kd = "init"    -> <<"n = 0">>
     [] kd = "inc"     -> <<"n = n + 1">>
     [] kd = "echo"    -> <<"n">>
     [] kd = "none"    -> <<"None">>
@@ -52,13 +78,13 @@ Lines(kd) ==
 OneLine   == {"init", "inc", "echo", "none", "under", "call", "comment", "empty", "ws", "serr", "rerr"}
 Compound  == {"cinc", "nest", "loop", "else", "cmt", "cecho", "def", "rerrc", "cstr"}   \* complete only with the (last) blank line
 Continued == {"ml", "mlc", "mls", "bs", "mle", "mlse", "mlsw"}                           \* complete at the closing line
-AllKinds  == OneLine \cup Compound \cup Continued \cup {"serrc"}
-Alphabet  == AllKinds \ {"init"}     \* the items a session is made of after its initial  n = 0
-(* one representative of every class of item, for longer exhaustive sessions *)
-CoreKinds == {"inc", "echo", "none", "under", "cinc", "def", "call", "ml", "mlse", "comment", "empty", "serr", "rerr"}
+FixedKinds == OneLine \cup Compound \cup Continued \cup {"serrc"}
+AllKinds  == FixedKinds \cup BlockKinds
+Alphabet  == FixedKinds \ {"init"}     \* the items a session is made of after its initial  n = 0
+
 M(kd) == Len(Lines(kd))
 (* the line from which on the item may execute (or, for an erroneous statement, be reported) *)
-C(kd) == IF kd \in OneLine THEN 1 ELSE IF kd \in Compound THEN M(kd) ELSE IF kd = "serrc" THEN 2 ELSE M(kd) - 1
+C(kd) == IF kd \in OneLine THEN 1 ELSE IF kd \in Compound \cup BlockKinds THEN M(kd) ELSE IF kd = "serrc" THEN 2 ELSE M(kd) - 1
 
 (* ------------------------------- effect on the abstract namespace ------------------------------- *)
 NoValue == [def |-> FALSE, val |-> ""]
@@ -70,7 +96,8 @@ Ns0 == [n |-> -1, f |-> FALSE, last |-> NoValue]
 Effect(kd, s) ==
   LET same(o, e) == [ns |-> s, out |-> o, err |-> e]
       plus(d, e) == [ns |-> [s EXCEPT !.n = @ + d], out |-> "", err |-> e] IN
-  CASE kd = "init" -> [ns |-> [s EXCEPT !.n = 0], out |-> "", err |-> FALSE]
+  CASE kd \in BlockKinds -> plus(BIncs(BTable[kd]), FALSE)
+    [] kd = "init" -> [ns |-> [s EXCEPT !.n = 0], out |-> "", err |-> FALSE]
     [] kd \in {"inc", "cinc", "else", "cmt", "ml", "mlc", "mle", "bs"} -> plus(1, FALSE)
     [] kd \in {"nest", "loop"} -> plus(2, FALSE)
     [] kd = "rerrc" -> plus(1, TRUE)                       \* the effects before the failing line stay
@@ -98,6 +125,12 @@ VARIABLES hist,       \* kinds of the items started so far
           late        \* some item of this session ran after its completing line
 vars == <<hist, k, ex, ns, prompt, out, err, late>>
 
+(* the items that may follow the history h (a configuration may override it to shape the sessions) *)
+NextKinds(h) == Kinds
+(* sessions made of one generated block item and one item of the core alphabet, in either order *)
+CoreKinds == {"inc", "echo", "none", "under", "cinc", "def", "call", "ml", "mlse", "comment", "empty", "serr", "rerr"}
+BlockAndCore(h) == IF Len(h) = 1 THEN BlockKinds \cup CoreKinds ELSE IF h[2] \in BlockKinds THEN CoreKinds ELSE BlockKinds
+BlockThenProbe(h) == IF Len(h) = 1 THEN BlockKinds ELSE {"echo", "cinc"}
 Cur == IF hist = <<>> THEN "init" ELSE hist[Len(hist)]     \* (total, so that guards can be evaluated in any order)
 AtBoundary == hist = <<>> \/ (k = M(Cur) /\ ex)
 Incomplete == hist # <<>> /\ k < C(Cur)
@@ -126,7 +159,7 @@ Exec ==
 Feed == \E p \in {PS1, PS2} :
           \/ ~AtBoundary /\ FeedLine(Cur, p)
           \/ AtBoundary /\ hist = <<>> /\ FeedLine("init", p)
-          \/ AtBoundary /\ hist # <<>> /\ Len(hist) <= MaxItems /\ \E kd \in Kinds : FeedLine(kd, p)
+          \/ AtBoundary /\ hist # <<>> /\ Len(hist) <= MaxItems /\ \E kd \in NextKinds(hist) : FeedLine(kd, p)
 Next == Feed \/ Exec
 Spec == Init /\ [][Next]_vars
 
@@ -138,7 +171,7 @@ PromptClause == PromptOK
 (* an item that cannot run yet has not run; one whose last line was fed runs before anything else is fed *)
 NotEarly == hist # <<>> /\ k < C(Cur) => ~ex
 EchoClause == (out # "" => ex /\ out = Effect(Cur, RefNs(SubSeq(hist, 1, Len(hist) - 1))).out)
-TypeOK == k \in 0..5 /\ prompt \in {PS1, PS2} /\ ns.n \in -1..(2 * (MaxItems + 1))
+TypeOK == k \in 0..6 /\ prompt \in {PS1, PS2} /\ ns.n \in -1..(6 * (MaxItems + 1))
 
 Leaf == Len(hist) = MaxItems + 1 /\ k = M(Cur) /\ ex
 =============================================================================
